@@ -61,7 +61,6 @@ func consultsInSends(w *core.World, r *core.Report, rule string, fn *ssa.Functio
 
 const kLVGHP = "tree.LeafVariants.GetHighestPrecedence"
 
-
 func c04(w *core.World, r *core.Report) {
 	setWordBits(w)
 	validate := w.Func("pkg/tree", "sharedEntryAttributes", "Validate")
@@ -147,8 +146,9 @@ func c04(w *core.World, r *core.Report) {
 			r.Viol("ALL-CHILDREN", core.Site(validate, "range over active children"), w.Pos(validate.Pos()), "Validate does not range over the active children")
 		} else {
 			var recs []ssa.Instruction
+			loopFn := next.Parent() // Validate itself, or the phase helper the loop was moved into
 			for _, c := range core.Calls(validate) {
-				if c.Parent() != validate {
+				if c.Parent() != loopFn {
 					continue // calls inside virtually inlined helpers are reached through the helper's own call
 				}
 				callee := c.Common().StaticCallee()
@@ -157,7 +157,7 @@ func c04(w *core.World, r *core.Report) {
 						callee = tg[0]
 					}
 				}
-				if callee != nil && callee.Blocks != nil && (callee.Parent() == validate || (callee.Pkg == validate.Pkg && callee != validate)) && alwaysCalls(callee, 1, "tree.Entry.Validate") {
+				if callee != nil && callee.Blocks != nil && (callee.Parent() == validate || callee.Parent() == loopFn || (callee.Pkg == validate.Pkg && callee != validate)) && alwaysCalls(callee, 1, "tree.Entry.Validate") {
 					// a closure of Validate or a helper of the package that validates the entry it is given on every path
 					recs = append(recs, c)
 					helpers[callee] = true
